@@ -18,7 +18,11 @@ CONSTANTS MortonBitsPerDim,   \* function N |-> b : all coordinates below 2^b ex
           WM
 
 HKq == 0..6
-HKt == 0..8
+HK9 == {9}
+HK10 == {10}
+QB0 == <<0, 0, 0, 0>>
+Row0 == <<1, 1, 1, 1>>
+HKt == 0..10
 QB == <<8, 4, 2, 2>>
 TB == <<10, 5, 3, 2>>
 RowQ == <<16, 6, 4, 3>>
@@ -60,5 +64,5 @@ EmitCases == TLCGet("stats").generated >= 0 /\
   ndJsonSerialize(IOEnv.VF_OUT,
      SetToSeq({[kind |-> "morton", c |-> c, idx |-> MortonBits(c, WM)] : c \in MortonCases})
      \o SetToSeq({[kind |-> "hilbert", k |-> k,
-                   walk |-> [d \in 1..(4 ^ k) |-> D2XY(2 ^ k, d - 1)]] : k \in HilbertKs}))
+                   walk |-> [d \in 1..(4 ^ k) |-> D2XY(2 ^ k, d - 1)]] : k \in {j \in HilbertKs : j <= 8}}))   \* (walks of k = 9, 10 are not emitted: 10^6 points)
 =============================================================================
